@@ -33,6 +33,10 @@ pub struct Norm {
     /// initialiser can give its accumulator the declared type
     let_ctx: Option<((usize, usize, usize, usize), syn::Type)>,
     out_ty: Option<syn::Type>,
+    /// N5r: span of a `.collect::<Result<Vec<_>, _>>()` that is directly followed by `?` (set at the Try node, consumed by the collect rule)
+    result_collect: Option<(usize, usize, usize, usize)>,
+    result_collect_done: bool,
+    collect_as_result: bool,
     from_fn: BTreeMap<usize, usize>,
     from_fn_idx: usize,
 }
@@ -377,7 +381,7 @@ impl<'a> Visit<'a> for HasReturn {
 
 impl Norm {
     pub fn new(from_fn: BTreeMap<usize, usize>) -> Self {
-        Norm { rules: vec![], dropped: vec![], errors: vec![], nloops: 0, nrets: 0, hoisted: vec![], map_kind: None, tmp: 0, hint: String::new(), names: BTreeMap::new(), let_ctx: None, out_ty: None, from_fn, from_fn_idx: 0 }
+        Norm { rules: vec![], dropped: vec![], errors: vec![], nloops: 0, nrets: 0, hoisted: vec![], map_kind: None, tmp: 0, hint: String::new(), names: BTreeMap::new(), let_ctx: None, out_ty: None, result_collect: None, result_collect_done: false, collect_as_result: false, from_fn, from_fn_idx: 0 }
     }
 
     fn rule(&mut self, r: &str, sp: Span, note: &str) {
@@ -892,7 +896,14 @@ impl Norm {
                 (parse_quote!(#x), vec![], parse_quote!(#x))
             }
         };
-        body.push(parse_quote!(#out.push(#val);));
+        if self.collect_as_result {
+            body.push(parse_quote!(match #val { Ok(__v) => { #out.push(__v); } Err(__e) => { return Err(__e); } }));
+            self.result_collect_done = true;
+            self.collect_as_result = false;
+            self.rule("N5", sp, "collect::<Result<Vec<_>,_>>()? -> push loop returning the first Err (std definition)");
+        } else {
+            body.push(parse_quote!(#out.push(#val);));
+        }
         let loop_stmts: Vec<Stmt> = match (&it.src, it.adapters.is_empty()) {
             (Src::Range { lo, hi }, true) => {
                 let pat: Pat = if matches!(pat, Pat::Wild(_)) { let k = self.fresh("it"); parse_quote!(#k) } else { pat };
@@ -909,6 +920,48 @@ impl Norm {
             #decl
             #(#loop_stmts)*
             #out
+        }))
+    }
+
+    /// N5f: `<iter>[.map(f)].fold(init, |acc, x| E)` and `<iter>[.map(f)].sum()` -> accumulator loop (std definitions; `sum` on
+    /// primitive integers is repeated `+`, whose overflow is an obligation here)
+    fn fold_to_block(&mut self, it: &Iter, init: Expr, fold: Option<&syn::ExprClosure>, sp: Span) -> Option<Expr> {
+        let mut it = it.clone();
+        let map = match it.adapters.last() {
+            Some(Adapter::Map(c)) => { let c = c.clone(); it.adapters.pop(); Some(c) }
+            _ => None,
+        };
+        if it.adapters.iter().any(|a| matches!(a, Adapter::Map(_))) { return None; }
+        let saved = self.hint.clone();
+        if self.hint.is_empty() { if let Some(c) = &map { if c.inputs.len() == 1 { self.hint = pat_hint(&c.inputs[0]); } } }
+        let acc = self.fresh("acc");
+        let (pat, mut body, val): (Pat, Vec<Stmt>, Expr) = match &map {
+            Some(c) => match self.closure_parts(c) { Some(x) => x, None => { self.hint = saved; return None; } },
+            None => { let x = self.fresh("x"); (parse_quote!(#x), vec![], parse_quote!(#x)) }
+        };
+        match fold {
+            Some(f) => {
+                if f.inputs.len() != 2 { self.hint = saved; return None; }
+                let (a, x) = (&f.inputs[0], &f.inputs[1]);
+                let fb = &f.body;
+                body.push(parse_quote!(let #x = #val;));
+                body.push(parse_quote!(#acc = { let #a = #acc; #fb };));
+            }
+            None => body.push(parse_quote!(#acc = #acc + #val;)),
+        }
+        let loop_stmts: Vec<Stmt> = match (&it.src, it.adapters.is_empty()) {
+            (Src::Range { lo, hi }, true) => {
+                let pat: Pat = if matches!(pat, Pat::Wild(_)) { let k = self.fresh("it"); parse_quote!(#k) } else { pat };
+                vec![parse_quote!(for #pat in #lo..#hi { #(#body)* })]
+            }
+            _ => match self.emit_loop(&it, &pat, body, sp) { Some(v) => v, None => { self.hint = saved; return None; } },
+        };
+        self.hint = saved;
+        self.rule("N5", sp, "iterator .map(..).fold(..)/.sum() -> accumulator loop");
+        Some(parse_quote!({
+            let mut #acc = #init;
+            #(#loop_stmts)*
+            #acc
         }))
     }
 }
@@ -1322,8 +1375,33 @@ impl<'a> VisitMut for Rewriter<'a> {
     }
 
     fn visit_expr_mut(&mut self, e: &mut Expr) {
+        // N5r: `<iter>.map(f).collect::<Result<Vec<_>, _>>()?` — std: the first Err stops the iteration and is returned
+        let mut try_collect = false;
+        if let Expr::Try(t) = e {
+            if let Expr::MethodCall(m) = &*t.expr {
+                if m.method == "collect" && m.args.is_empty() {
+                    if let Some(tf) = &m.turbofish {
+                        if let Some(syn::GenericArgument::Type(syn::Type::Path(tp))) = tf.args.first() {
+                            if tp.path.segments.last().map(|s| s.ident == "Result").unwrap_or(false) {
+                                self.n.result_collect = Some(span_key(m.span()));
+                                self.n.result_collect_done = false;
+                                try_collect = true;
+                            }
+                        }
+                    }
+                }
+            }
+        }
         // children first (closure bodies are normalised before they are inlined)
         visit_mut::visit_expr_mut(self, e);
+        if try_collect {
+            self.n.result_collect = None;
+            if self.n.result_collect_done {
+                self.n.result_collect_done = false;
+                if let Expr::Try(t) = e { let inner = (*t.expr).clone(); *e = inner; }
+                return;
+            }
+        }
         let sp = e.span();
         let mut replacement: Option<Expr> = None;
         match e {
@@ -1331,6 +1409,8 @@ impl<'a> VisitMut for Rewriter<'a> {
                 let name = m.method.to_string();
                 match (name.as_str(), m.args.len()) {
                     ("collect", 0) => {
+                        let as_result = self.n.result_collect == Some(span_key(sp));
+                        self.n.collect_as_result = as_result;
                         self.n.out_ty = match &self.n.let_ctx {
                             Some((k, ty)) if *k == span_key(sp) => Some(ty.clone()),
                             _ => None,
@@ -1359,6 +1439,23 @@ impl<'a> VisitMut for Rewriter<'a> {
                         }
                         if replacement.is_none() {
                             self.n.errors.push(format!("unsupported .extend() argument at source line {}", sp.start().line));
+                        }
+                    }
+                    ("fold", 2) => {
+                        if let (Some(it), Expr::Closure(c)) = (parse_iter(&m.receiver, false), strip_paren(&m.args[1])) {
+                            let init = m.args[0].clone();
+                            match self.n.fold_to_block(&it, init, Some(c), sp) {
+                                Some(b) => replacement = Some(b),
+                                None => self.n.errors.push(format!("unsupported .fold() chain at source line {}", sp.start().line)),
+                            }
+                        }
+                    }
+                    ("sum", 0) => {
+                        if let Some(it) = parse_iter(&m.receiver, false) {
+                            match self.n.fold_to_block(&it, parse_quote!(0), None, sp) {
+                                Some(b) => replacement = Some(b),
+                                None => self.n.errors.push(format!("unsupported .sum() chain at source line {}", sp.start().line)),
+                            }
                         }
                     }
                     ("all", 1) | ("any", 1) | ("position", 1) => {
@@ -1740,6 +1837,13 @@ pub fn thread_effects(sig: &mut syn::Signature, block: &mut Block, w: &str, ty: 
                             let r = &mc.receiver;
                             let args = &mc.args;
                             repl = Some(if args.is_empty() { parse_quote!(#w.#m(#r)) } else { parse_quote!(#w.#m(#r, #args)) });
+                        }
+                        // `methodref`: the receiver is a place (e.g. `self.verifier`), passed to the world by shared reference
+                        if k == "methodref" && mc.method == pat.as_str() {
+                            let m = id(m);
+                            let r = &mc.receiver;
+                            let args = &mc.args;
+                            repl = Some(if args.is_empty() { parse_quote!(#w.#m(&#r)) } else { parse_quote!(#w.#m(&#r, #args)) });
                         }
                     }
                 }
